@@ -2,9 +2,19 @@ import CalicoVerif.Model.C20
 import CalicoVerif.Proofs.C19b
 /-!
 C20 — IPAM allocations respect pools, uses, reservations and affinity limits.
-Theorems over the decision logic (`allowedPools`, `takeFree`, `claimLoop`,
-`ownOk`) for ALL pool layouts, requests, reservation sets, block contents and
-loop histories.
+
+* Decision functions only (named `_partial`): `allowedPools` (determinePools +
+  filterPoolsByUse), the scan of `autoAssign`, the block-cap loop — for ALL pool
+  layouts, requests, reservation sets, block contents and loop histories.
+* Run level: `assigned_respects_limits` — over ALL runs of `Cas.step` whose events
+  pass `guard20` (what the real client hands to `autoAssign`: a block of a pool
+  selected for the request, the block's reserved ordinals, the affinity check under
+  strict affinity — the driver checks every real event against it), every address a
+  request records lies in a block of a pool selected for it, is outside every
+  reservation, and under strict affinity comes from a block recording the requesting
+  host.
+* NOT modelled: the returned prefix length ("comes back as its block's CIDR") — checked on
+  the real code by the harness oracle only; which block / pool order AutoAssign tries.
 -/
 namespace CalicoVerif.C20
 open CalicoVerif.Cas
@@ -30,10 +40,10 @@ theorem mem_mapM_find {en : List Pool} : ∀ (req : List Nat) (m : List Pool),
         · have := mem_mapM_find req m' hr p hp
           exact ⟨this.1, List.mem_cons_of_mem _ this.2⟩
 
-/-- Every pool a request may draw from is enabled and allowed for the request's use;
+/-- (Decision function only.)  Every pool a request may draw from is enabled and allowed for the request's use;
 without explicitly requested pools it is automatic and selects the node and the
 namespace; with requested pools it is one of them. -/
-theorem assigned_in_allowed_pool (pools : List Pool) (req : List Nat) (zone team : Nat) (use : Use)
+theorem allowed_pools_sound_partial (pools : List Pool) (req : List Nat) (zone team : Nat) (use : Use)
     (l : List Nat) (h : allowedPools pools req zone team use = some l) :
     ∀ i ∈ l, ∃ p ∈ pools, p.id = i ∧ p.enabled = true ∧ use ∈ p.uses ∧
       (req = [] → p.auto = true ∧ selOk p.nodeSel zone = true ∧ selOk p.nsSel team = true) ∧
@@ -67,8 +77,9 @@ theorem assigned_in_allowed_pool (pools : List Pool) (req : List Nat) (zone team
             obtain ⟨hpp, hen⟩ := List.mem_filter.1 this.1
             exact ⟨p, hpp, rfl, hen, hu', fun he => by simp [he] at hreq, fun _ => this.2⟩
 
-/-- Requests fail rather than violate: a successful pool selection is never empty. -/
-theorem fail_rather_than_violate (pools : List Pool) (req : List Nat) (zone team : Nat) (use : Use)
+/-- (Decision function only.)  Requests fail rather than violate: the selection either fails or
+is non-empty — there is no "fall back to any pool". -/
+theorem fail_rather_than_violate_partial (pools : List Pool) (req : List Nat) (zone team : Nat) (use : Use)
     (l : List Nat) (h : allowedPools pools req zone team use = some l) : l ≠ [] := by
   unfold allowedPools at h
   simp only at h
@@ -100,28 +111,10 @@ theorem takeFree_not_reserved (rv : List Nat) (k : Nat) (u : List Nat) :
 
 /-- No automatically assigned address is inside a reservation: the scan of `autoAssign`
 never picks a reserved ordinal, whatever the block and the reservation set. -/
-theorem never_reserved (k h : Nat) (rv : List Nat) (b : Blk) :
+theorem scan_never_picks_reserved_partial (k h : Nat) (rv : List Nat) (b : Blk) :
     ∀ o ∈ (autoAssign k h rv b).2, o ∉ rv := by
   simp only [autoAssign]
   exact takeFree_not_reserved rv k b.unalloc
-
-/-- Strict affinity: an allocation made with the affinity check by host `x` is a
-compare-and-swap against a stored block that records `x` as its affinity. -/
-theorem strict_affinity_respected (s s' : St) (c : Call) (x b : Nat)
-    (h : Cas.step s (.call c) = some s') (hown : c.own = some x) (hk : c.key = Key.blk b)
-    (hw : c.verb.isWrite = true)
-    (hok : casOutcome (s.curRev c.key) c.verb c.rev c.fault = Outcome.ok) :
-    ∃ r v, s.blk b = some (r, v) ∧ v.aff = some x := by
-  simp only [Cas.step, hok, hw, if_true] at h
-  split at h
-  · rename_i ho
-    unfold ownOk at ho
-    rw [hown, hk] at ho
-    simp only at ho
-    split at ho
-    · rename_i r v hb; exact ⟨r, v, hb, by simpa using ho⟩
-    · cases ho
-  · cases h
 
 theorem effCap_pos (c r : Nat) : 1 ≤ effCap c r := by
   unfold effCap
@@ -158,6 +151,49 @@ theorem blocks_per_host_le_cap_false :
   have := H 1 0 1 [true] (by decide)
   revert this
   decide
+
+theorem mem_resvOrds (ranges : List (Nat × Nat)) (base size o : Nat) :
+    o ∈ resvOrds ranges base size ↔ o < size ∧ inRanges ranges (base + o) = true := by
+  simp [resvOrds, List.mem_filter, List.mem_range]
+
+/-- Run level.  Take ANY run of the model from the empty store whose events pass `guard20`,
+and any step of it by which thread `t` — executing an AutoAssign request `r` — records a new
+address (block `b`, ordinal `o`) through the scan of `autoAssign`.  Then `b` lies in a pool
+selected for the request, the address `base b + o` is in no reservation, and under strict
+affinity the block it was taken from records the requesting host as its affinity. -/
+theorem assigned_respects_limits (env : Env20) (req : Nat → Option Req)
+    (r0 nb : Nat) (evs : List Ev) (s s' : St) (e : Ev)
+    (hr : run (St.init r0 nb) evs = some s) (hg : guard20 env req e = true) (hs : Cas.step s e = some s')
+    (t b o : Nat) (hin : (b, o) ∈ s'.got t) (hnot : (b, o) ∉ s.got t)
+    (r : Req) (hreq : req t = some r) :
+    ∀ c g1 h k rv g2, e = Ev.call c → c.pl = Payload.blkRmw g1 (.assign h k rv) g2 →
+      env.poolOf b ∈ r.allowed ∧
+      (o < env.size b → inRanges env.ranges (env.base b + o) = false) ∧
+      (r.strict = true → ∃ rv0 v0, s.blk b = some (rv0, v0) ∧ v0.aff = some r.host) := by
+  intro c g1 h k rv g2 he hpl
+  obtain ⟨c', he', ht, hk, hok, g1', op, g2', rvn, vn, hpl', _, _, hv, rv0, v0, res, hb, hrmw, hog⟩ :=
+    C19.got_grows_only_by_own_cas (C19.allWF_run (C19.allWF_init r0 nb) hr) hs hin hnot
+  subst he
+  injection he' with he'
+  subst he'
+  rw [hpl] at hpl'
+  injection hpl' with e1 e2 e3
+  subst e1; subst e2; subst e3
+  simp only [guard20, hk, hpl, ht, hreq] at hg
+  simp only [Bool.and_eq_true, List.contains_eq_mem, decide_eq_true_eq, beq_iff_eq, Bool.or_eq_true,
+    Bool.not_eq_true'] at hg
+  obtain ⟨⟨hpool, hrv⟩, hstrict⟩ := hg
+  refine ⟨hpool, ?_, ?_⟩
+  · intro hlt
+    have hn := C19.rmw_assign_not_reserved hrmw hog
+    rw [hrv, mem_resvOrds] at hn
+    cases hx : inRanges env.ranges (env.base b + o) with
+    | false => rfl
+    | true => exact absurd ⟨hlt, hx⟩ hn
+  · intro hst
+    rcases hstrict with h1 | h1
+    · rw [hst] at h1; cases h1
+    · exact C19.own_guard hs h1 hk (by rw [hv]; rfl) hok
 
 /-- non-vacuity: a layout where a request is served from exactly one of three pools. -/
 example : allowedPools
